@@ -15,6 +15,10 @@ read as its comprehension; the project bound kept on the scheduler is never None
 Round 7: the future-end validator may be written inside calc (sched_dep.resolve_validator) and must compare task.end with the
 clock itself; the loop check may be written inside _check_loops; a memo kept on the scheduler outlives a failed calc; sort keys
 over nullable fields; `remaining -= reserve(..) if free > 0 else 0` and a hoisted booked amount in the loop-exit inference.
+Round 8: the wait-for graph may be split over sibling helpers (followed through `h(task)` calls, per-item start/end side); the
+walk of the loop check must not be skippable; dependency dates enter max/min None-filtered or demanded by the isolation check;
+user IResource objects are never hashed; division guards inside conditional expressions and `free > c` (c >= 0); calendar
+divisions spelled operator.truediv and nested operator procedures; hoisted `x is None` flags in the definite-assignment analysis.
 Not decided: stack depth on legitimately deep acyclic inputs; exceptions raised inside user supplied IResource /
 calendar callables; clone()'s dictionary lookups (assumption table: keys are drawn from the collection that built the map).
 """
@@ -800,12 +804,21 @@ def calendar_divisions(ctx, o, reach):
     if not any(f.name == 'get_available_units' for f in fs):
         o.undecided(prog.func(BOTH[0]['calc']), None, 'calendar', "no calendar get_available_units in the reach of calc: interface dispatch not resolved")
         return
+    # procedures nested in those functions (an operator handed to a folding helper) run on the same path
+    quals = {f.qual for f in fs}
+    fs = fs + [g for g in prog.all_funcs() if g.module.name == 'calendar' and not isinstance(g.node, ast.Lambda) and g.qual not in quals
+               and any(g.qual.startswith(q + '.') for q in quals)]
     for f in fs:
         for n in walk_no_nested(f.node):
             if isinstance(n, ast.BinOp) and isinstance(n.op, (ast.Div, ast.FloorDiv, ast.Mod)):
                 D = n.right
             elif isinstance(n, ast.AugAssign) and isinstance(n.op, (ast.Div, ast.FloorDiv, ast.Mod)):
                 D = n.value
+            elif isinstance(n, ast.Call) and len(n.args) == 2 and (
+                    (isinstance(n.func, ast.Attribute) and isinstance(n.func.value, ast.Name) and n.func.value.id == 'operator' and
+                     n.func.attr in ('truediv', 'itruediv', 'floordiv', 'ifloordiv', 'mod', 'imod')) or
+                    (isinstance(n.func, ast.Name) and n.func.id in ('truediv', 'itruediv', 'floordiv', 'ifloordiv'))):
+                D = n.args[1]            # the division spelled as a function of the operator module
             else:
                 continue
             if isinstance(n, ast.BinOp) and isinstance(n.left, (ast.Constant, ast.JoinedStr)) and isinstance(getattr(n.left, 'value', None), str):
